@@ -11,7 +11,10 @@ import (
 	"sync"
 
 	"github.com/Oneledger/protocol/action"
+	olvmact "github.com/Oneledger/protocol/action/olvm"
 	"github.com/Oneledger/protocol/data/keys"
+	ethcmn "github.com/ethereum/go-ethereum/common"
+	ethtypes "github.com/ethereum/go-ethereum/core/types"
 
 	"olverif/internal/boxcli"
 	"olverif/internal/drive"
@@ -175,6 +178,16 @@ func (wm *warm) runProbe(tx []byte, spec hist.TxSpec, check, force bool, follow 
 		return out
 	}
 	include := force
+	if pr, ok := probePrime.Load(string(tx)); ok {
+		// the node has seen (and checked) the genuine transaction before the probe arrives
+		if _, err := b.Check(pr.([]byte)); err != nil {
+			if err == boxcli.ErrTimeout {
+				out.Err = err
+				return out
+			}
+			return died("CheckTx(prime)")
+		}
+	}
 	if check {
 		resp, err := b.Check(tx)
 		if err != nil {
@@ -301,6 +314,10 @@ func (wm *warm) emptyStates(follow int) ([]hist.State, error) {
 }
 
 // ---------------------------------------------------------------- hostile payloads
+
+// probePrime: probe transaction bytes -> a genuine transaction the node checks first (same process), so that
+// anything the node remembers from validating the genuine one is in place when the probe arrives.
+var probePrime sync.Map
 
 type hostile struct {
 	Spec  hist.TxSpec
@@ -516,17 +533,19 @@ func runProbes(r *verdict.Run, own, tier string) {
 				bases = append(bases, hist.TxSpec{Kind: "SEND", Bytes: tx, Note: "transfer from a " + u.Priv.Keytype.String() + " account", Signers: []string{u.Addr.String()}})
 			}
 			for _, b := range bases {
-				if b.Kind == "OLVM" {
-					continue
-				}
 				for _, m := range mutants(wm, b, rng) {
-					if strings.HasPrefix(m.name, "payload") || strings.HasPrefix(m.name, "fee") || m.name == "memo" || m.name == "type" {
+					if b.Kind == "OLVM" && !strings.HasPrefix(m.name, "olvm-signed-by-attacker") {
 						continue
 					}
+					if strings.HasPrefix(m.name, "fee") || m.name == "type" {
+						continue
+					}
+					// (payload and memo mutants carry the victim's old signature on different content)
 					if authentic(wm, b, m.bytes) {
 						continue
 					}
 					sp := hist.TxSpec{Kind: b.Kind, Bytes: m.bytes, Note: b.Note + " / " + m.name, Signers: verifiedSigners(m.bytes), Force: true}
+					probePrime.Store(string(m.bytes), b.Bytes)
 					jobs = append(jobs, job{wm, hostile{Spec: sp, Kind: b.Kind, Field: "<signatures>", Trait: "forged=" + m.name}})
 				}
 			}
@@ -598,6 +617,31 @@ func verifiedSigners(tx []byte) []string {
 		return nil
 	}
 	var out []string
+	if st.Type == action.OLVM {
+		p := &olvmact.Transaction{}
+		if json.Unmarshal(st.Data, p) != nil || len(st.Signatures) != 1 {
+			return nil
+		}
+		var to *ethcmn.Address
+		if p.To != nil {
+			a := ethcmn.BytesToAddress(p.To.Bytes())
+			to = &a
+		}
+		ethTx := ethtypes.NewTx(&ethtypes.LegacyTx{Nonce: p.Nonce, To: to, Value: p.Amount.Value.BigInt(), Gas: uint64(st.Fee.Gas), GasPrice: st.Fee.Price.Value.BigInt(), Data: p.Data})
+		if p.ChainID == nil {
+			return nil
+		}
+		signer := ethtypes.NewEIP155Signer(p.ChainID)
+		signed, err := ethTx.WithSignature(signer, st.Signatures[0].Signed)
+		if err != nil {
+			return nil
+		}
+		from, err := signer.Sender(signed)
+		if err != nil {
+			return nil
+		}
+		return []string{keys.Address(from.Bytes()).String()}
+	}
 	rb := st.RawTx.RawBytes()
 	for _, sg := range st.Signatures {
 		if addr, ok := libVerify(sg.Signer.KeyType, sg.Signer.Data, rb, sg.Signed); ok {
